@@ -398,3 +398,34 @@ def subclass_walk_contract(repo: Repo):
     if ys and yf and loops:
         return [(True, "iter_all_subclasses yields each direct subclass and recurses into it unconditionally", why)]
     return [(None, "iter_all_subclasses has an unrecognised shape", why)]
+
+
+
+def small_helper_contracts(repo: Repo):
+    """Exact bodies of three one-line helpers whose meaning other rules take for granted:
+    get_type_annotations (the Annotated metadata in declaration order: the alias rule 'the last Alias wins' and the
+    strategy lookup depend on the order), is_class_var (through mashumaro's own get_type_origin, which also recognises a bare
+    ClassVar) and is_init_var."""
+    from .srcmodel import M_HELPERS
+
+    out = []
+    want = {
+        "get_type_annotations": ({"getattr(typ, '__metadata__', [])", "getattr(typ, '__metadata__', ())"},
+                                 "the metadata of an Annotated type in the order it was written (outermost last): re-ordering changes which Alias / strategy wins"),
+        "is_class_var": ({"get_type_origin(typ) is ClassVar", "get_type_origin(typ) is typing.ClassVar"},
+                         "a bare `ClassVar` (no argument) is recognised only through get_type_origin; typing.get_origin returns None for it and the member becomes a field"),
+        "is_init_var": ({"isinstance(typ, dataclasses.InitVar)", "isinstance(typ, InitVar)"}, "InitVar members are not fields"),
+    }
+    for name, (forms, why) in want.items():
+        fi = repo.funcs.get(f"{M_HELPERS}::{name}")
+        if fi is None:
+            out.append((None, f"{name} not found", why))
+            continue
+        rets = [n for n in walk_no_nested(fi.node) if isinstance(n, ast.Return) and n.value is not None]
+        body = [st for st in fi.node.body if not (isinstance(st, ast.Expr) and isinstance(st.value, ast.Constant))]
+        if len(rets) == 1 and len(body) == 1:
+            got = ast.unparse(rets[0].value)
+            out.append((got in forms, f"{name} returns `{got}`" + ("" if got in forms else f" (confirmed: {sorted(forms)[0]})"), why))
+        else:
+            out.append((None, f"{name} is no longer a single return", why))
+    return out
